@@ -8,13 +8,18 @@ import (
 	"fmt"
 	"image/color"
 	"io"
+	"runtime"
 	"testing"
+	"unsafe"
 
 	"github.com/ProjectSerenity/firefly/kernel"
 	"github.com/ProjectSerenity/firefly/kernel/device"
 	"github.com/ProjectSerenity/firefly/kernel/device/tty"
 	"github.com/ProjectSerenity/firefly/kernel/device/video/console"
+	"github.com/ProjectSerenity/firefly/kernel/device/video/console/font"
+	"github.com/ProjectSerenity/firefly/kernel/device/video/console/logo"
 	"github.com/ProjectSerenity/firefly/kernel/kfmt"
+	"github.com/ProjectSerenity/firefly/kernel/multiboot"
 	"github.com/ProjectSerenity/firefly/kernel/zzverif/vlib"
 )
 
@@ -122,6 +127,52 @@ func (k *c16Console) SetPaletteColor(uint8, color.RGBA)    {}
 func (k *c16Console) DriverName() string                   { return k.d.name }
 func (k *c16Console) DriverVersion() (a, b, c uint16)      { return k.d.ver[0], k.d.ver[1], k.d.ver[2] }
 func (k *c16Console) DriverInit(w io.Writer) *kernel.Error { return k.env.onInit(k.d, w) }
+
+// Consoles that can additionally take a font and/or a boot logo, as the
+// shipped framebuffer console can: the hardware abstraction layer consults the
+// boot command line for them before it links the terminal.
+type c16FontCon struct {
+	*c16Console
+	fonts []*font.Font
+}
+type c16LogoCon struct {
+	*c16Console
+	logos []*logo.Image
+}
+type c16FontLogoCon struct {
+	*c16Console
+	fonts []*font.Font
+	logos []*logo.Image
+}
+
+func (k *c16FontCon) SetFont(f *font.Font)      { k.fonts = append(k.fonts, f) }
+func (k *c16LogoCon) SetLogo(l *logo.Image)     { k.logos = append(k.logos, l) }
+func (k *c16FontLogoCon) SetFont(f *font.Font)  { k.fonts = append(k.fonts, f) }
+func (k *c16FontLogoCon) SetLogo(l *logo.Image) { k.logos = append(k.logos, l) }
+
+// c16BootInfo builds a multiboot information block that carries only a
+// command line tag (type 1) and the end tag.
+func c16BootInfo(cmd string) []uint64 {
+	var b []byte
+	put32 := func(v uint32) { b = append(b, byte(v), byte(v>>8), byte(v>>16), byte(v>>24)) }
+	put32(0)
+	put32(0)
+	put32(1)
+	put32(uint32(8 + len(cmd) + 1))
+	b = append(b, cmd...)
+	b = append(b, 0)
+	for len(b)%8 != 0 {
+		b = append(b, 0)
+	}
+	put32(0)
+	put32(8)
+	b[0], b[1], b[2], b[3] = byte(len(b)), byte(len(b)>>8), 0, 0
+	out := make([]uint64, len(b)/8)
+	for i := range b {
+		out[i/8] |= uint64(b[i]) << (8 * uint(i%8))
+	}
+	return out
+}
 
 // ---------------------------------------------------------------------------
 // recording terminal: the real tty.VT plus a log of everything it is given
@@ -248,6 +299,7 @@ type c16Drv struct {
 	// console / terminal geometry
 	cw, ch     uint32
 	fg, bg     uint8
+	caps       int // consoles: bit 0 takes a font, bit 1 takes a logo
 	tab        uint8
 	scrollback uint32
 
@@ -522,7 +574,16 @@ func (e *c16Env) onProbe(d *c16Drv) device.Driver {
 	switch d.kind {
 	case c16KindCon:
 		d.con = &c16Console{d: d, env: e, w: d.cw, h: d.ch, fg: d.fg, bg: d.bg, cells: make([]c16Cell, int(d.cw*d.ch))}
-		d.obj = d.con
+		switch d.caps {
+		case 1:
+			d.obj = &c16FontCon{c16Console: d.con}
+		case 2:
+			d.obj = &c16LogoCon{c16Console: d.con}
+		case 3:
+			d.obj = &c16FontLogoCon{c16Console: d.con}
+		default:
+			d.obj = d.con
+		}
 	case c16KindTTY:
 		d.tty = &c16TTY{VT: tty.NewVT(d.tab, d.scrollback), d: d, env: e}
 		d.obj = d.tty
@@ -730,6 +791,7 @@ type c16Spec struct {
 	orderMode int
 	arrMode   int
 	style     int
+	cmdLine   string
 }
 
 var c16Named = []int8{int8(device.DetectOrderEarly), int8(device.DetectOrderBeforeACPI), int8(device.DetectOrderACPI), int8(device.DetectOrderLast)}
@@ -864,7 +926,19 @@ func c16Gen(r *vlib.Rand) *c16Spec {
 	if r.Chance(1, 3) {
 		s.padTarget = []int{2040, 2046, 2047, 2048, 2049, 2100, 4095, 4096}[r.Intn(8)]
 	}
+	// consoles that take a font / a logo, and what the boot command line says about them
+	for _, d := range s.drivers {
+		if d.kind == c16KindCon && r.Chance(1, 2) {
+			d.caps = r.Range(1, 3)
+		}
+	}
+	s.cmdLine = c16CmdLines[r.Intn(len(c16CmdLines))]
 	return s
+}
+
+var c16CmdLines = []string{
+	"", "", "quiet", "consoleLogo=off", "consoleFont=terminus8x16", "consoleFont=terminus10x18 consoleLogo=off",
+	"consoleFont=terminus14x28", "consoleFont=nosuchfont", "consoleLogo=on consoleFont=", "root=/dev/sda1 consoleFont=terminus8x16 splash",
 }
 
 func (s *c16Spec) describe() map[string]interface{} {
@@ -879,7 +953,7 @@ func (s *c16Spec) describe() map[string]interface{} {
 		}
 		geo := ""
 		if d.kind == c16KindCon {
-			geo = fmt.Sprintf(" %dx%d", d.cw, d.ch)
+			geo = fmt.Sprintf(" %dx%d%s", d.cw, d.ch, []string{"", " takes-font", " takes-logo", " takes-font-and-logo"}[d.caps])
 		} else if d.kind == c16KindTTY {
 			geo = fmt.Sprintf(" tab=%d sb=%d", d.tab, d.scrollback)
 		}
@@ -898,7 +972,7 @@ func (s *c16Spec) describe() map[string]interface{} {
 	return map[string]interface{}{
 		"registered_in_this_order": ds, "pre_log_bytes": sum(s.preOps), "pre_log_chunks": len(s.preOps),
 		"post_log_bytes": sum(s.postOps), "post_log_chunks": len(s.postOps), "ring_start_offset": s.ringStart,
-		"pad_pre_handover_total_to": s.padTarget, "byte_style": s.style,
+		"pad_pre_handover_total_to": s.padTarget, "byte_style": s.style, "boot_command_line": s.cmdLine,
 	}
 }
 
@@ -915,6 +989,10 @@ func c16Reset(ringStart int) {
 func c16RunCase(c *vlib.Case, run *vlib.Run, s *c16Spec) {
 	c.Begin(s.describe())
 	c16Reset(s.ringStart)
+	bootInfo := c16BootInfo(s.cmdLine)
+	multiboot.SetInfoPtr(uintptr(unsafe.Pointer(&bootInfo[0])))
+	multiboot.VerifResetCmdLine()
+	defer runtime.KeepAlive(bootInfo)
 	e := &c16Env{c: c, run: run, drivers: s.drivers, padTarget: s.padTarget}
 	if snap, rI, wI := kfmt.VerifC16EarlySnapshot(); len(snap) != 0 || rI != wI {
 		c.Violationf("harness-reset-failed", "early ring not empty after reset: %d bytes", len(snap))
@@ -1036,7 +1114,7 @@ func c16Check(e *c16Env, s *c16Spec) {
 	var wantCon console.Device
 	var wantTTY tty.Device
 	if firstCon != nil {
-		wantCon = firstCon.con
+		wantCon = firstCon.obj.(console.Device)
 	}
 	if firstTTY != nil {
 		wantTTY = firstTTY.tty
@@ -1128,7 +1206,7 @@ func c16Check(e *c16Env, s *c16Spec) {
 				run.Count("hal_active_terminal_attached_more_than_once", 1)
 			}
 			for _, a := range t.attach {
-				if a != console.Device(firstCon.con) {
+				if a != firstCon.obj.(console.Device) {
 					c.Violationf("terminal-attached-to-wrong-console", "terminal %s attached to %s, the first initialised console is %s", firstTTY.name, c16NameOf(a), firstCon.name)
 					break
 				}
@@ -1326,6 +1404,12 @@ func c16NameOf(v interface{}) string {
 			return "<none>"
 		}
 		return x.d.name
+	case *c16FontCon:
+		return x.d.name
+	case *c16LogoCon:
+		return x.d.name
+	case *c16FontLogoCon:
+		return x.d.name
 	case *c16TTY:
 		if x == nil {
 			return "<none>"
@@ -1381,6 +1465,18 @@ func c16Fixed(which int) *c16Spec {
 		s.drivers[0].cw, s.drivers[0].ch = 40, 10
 		s.preOps = []c16Op{line(300)}
 		s.postOps = []c16Op{line(600), line(600), line(600)}
+	case 6: // terminal first, then a console that takes a font named on the boot command line
+		s.drivers = []*c16Drv{mk(0, c16KindTTY, early), mk(1, c16KindCon, 10)}
+		s.drivers[1].caps = 1
+		s.cmdLine = "consoleFont=terminus8x16"
+		s.preOps = []c16Op{line(100)}
+		s.postOps = []c16Op{line(50)}
+	case 7: // terminal first, then a console that takes a font and a logo, logo switched off, unknown font
+		s.drivers = []*c16Drv{mk(0, c16KindTTY, early), mk(1, c16KindCon, 10)}
+		s.drivers[1].caps = 3
+		s.cmdLine = "consoleLogo=off consoleFont=nosuchfont"
+		s.preOps = []c16Op{line(100)}
+		s.postOps = []c16Op{line(50)}
 	}
 	return s
 }
@@ -1391,7 +1487,7 @@ func TestVerifC16(t *testing.T) {
 	run := vlib.Start(t, "C16")
 	defer run.Finish()
 	run.SetRule("hal run: case = 0-10 mock drivers (consoles, terminals wrapping the real tty.VT, plain; 15% probe nil, 20% init failure; orders from the four named constants / random int8 / all equal / two values) registered in a permutation (random, consoles first, terminals first, failures first, ascending, descending), 0-6000 bytes logged before DetectHardware, further log writes from inside Probe and DriverInit (directly and through the writer hal hands to DriverInit), 0-6000 bytes logged afterwards, chunks of 1-700 bytes through four different kfmt entry points, early ring starting at offsets {0,1,1024,2040,2046,2047,random}; non-trivial = a console and a terminal initialised, at least one driver failed or probed nil, at least 3 drivers registered not already in detection order, and something was logged before the hand-over; distinct = fingerprint of (driver kinds, orders, names, failures, registration order, bytes logged, hand-over offset)")
-	run.Assume("mock drivers stand in for the shipped console/ACPI drivers; the terminal is the real tty.VT inside a recording wrapper; hal's own log lines are read back from the early ring at the next mock callback via the movement of the ring's write index, which assumes hal logs fewer than 2048 bytes between two callbacks; consoles that implement FontSetter/LogoSetter (boot command line) are not generated")
+	run.Assume("mock drivers stand in for the shipped console/ACPI drivers; the terminal is the real tty.VT inside a recording wrapper; hal's own log lines are read back from the early ring at the next mock callback via the movement of the ring's write index, which assumes hal logs fewer than 2048 bytes between two callbacks; half of the consoles also take a font and/or a logo (mock FontSetter/LogoSetter) and every case boots with one of ten command lines (consoleFont=<known|unknown>, consoleLogo=off, unrelated words, empty) in a one-tag multiboot block; which font or logo is chosen is not judged")
 
 	savedDrivers := device.VerifC16Drivers()
 	defer func() {
@@ -1404,7 +1500,7 @@ func TestVerifC16(t *testing.T) {
 	run.Cases(run.N(3000, 240000), func(c *vlib.Case) {
 		c16RunCase(c, run, c16Gen(c.R))
 	})
-	for i := 1; i <= 5; i++ {
+	for i := 1; i <= 7; i++ {
 		i := i
 		run.OneCase(vlib.FixedBase+i, func(c *vlib.Case) {
 			c16RunCase(c, run, c16Fixed(i))
